@@ -75,7 +75,10 @@ func (ec *Collector) Len() int { defer with(lock(&ec.mu)); return ec.stack.Len()
 // collector.
 func (ec *Collector) Iterator() *fun.Iterator[error] {
 	defer with(lock(&ec.mu))
-	return fun.CheckProducer(ec.stack.CheckProducer()).Iterator()
+	// read the errors out while the mutex is held: Add rewrites the
+	// head of the stack in place, so a producer that walks the
+	// stack after this method has returned would race with it.
+	return fun.SliceIterator(ec.stack.Unwind())
 }
 
 // Resolve returns an error of type *erc.Stack, or nil if there have
